@@ -75,7 +75,8 @@ def run_case(case):
     viols, errs = [], {}
     evals = 0
     R = Ref(cm.rshells(shells), pts, T)
-    kw = {} if T is None else {"transform": T.copy()}
+    rkind = cm.REPS[(len(pts) + len(dm)) % len(cm.REPS)]  # in-memory representation of the array arguments
+    kw = {} if T is None else {"transform": cm.rep(T, rkind)}
     N = len(pts)
     sref, ssc = np.zeros((N, 3, 3)), np.zeros((N, 3, 3))
     href, hsc = np.zeros((N, 3, 3)), np.zeros((N, 3, 3))
@@ -86,7 +87,7 @@ def run_case(case):
             sref[:, j, k], ssc[:, j, k] = da.evaluate_parts(da.stress_parts(j, k, a, b), dm, R.val, R.sc)
             href[:, j, k], hsc[:, j, k] = da.evaluate_parts(da.ehess_parts(j, k, a, b), dm, R.val, R.sc)
     tag = "(alpha=%r, beta=%r)" % (a, b)
-    S = cm.call(ST.evaluate_stress_tensor, dm.copy(), cm.build(shells), pts.copy(), alpha=a, beta=b, **kw)
+    S = cm.call(ST.evaluate_stress_tensor, cm.rep(dm, rkind), cm.build(shells), cm.rep(pts, rkind), alpha=a, beta=b, **kw)
     cm.compare(S, sref, TOL, "evaluate_stress_tensor" + tag, "stress", viols, errs, scale=ssc + 1e-280, alpha=a, beta=b)
     evals += 1
     if isinstance(S, np.ndarray) and S.shape == (N, 3, 3):
@@ -95,13 +96,13 @@ def run_case(case):
         evals += 1
         if not e <= TOL:
             viols.append(cm.viol("stress tensor is not symmetric (%.3e)" % e, "stress_symmetric", e, TOL))
-    F = cm.call(ST.evaluate_ehrenfest_force, dm.copy(), cm.build(shells), pts.copy(), alpha=a, beta=b, **kw)
+    F = cm.call(ST.evaluate_ehrenfest_force, cm.rep(dm, rkind), cm.build(shells), cm.rep(pts, rkind), alpha=a, beta=b, **kw)
     cm.compare(F, fref, TOL, "evaluate_ehrenfest_force" + tag + " vs -div(stress)", "force", viols, errs, scale=fsc + 1e-280, alpha=a, beta=b)
     evals += 1
-    H = cm.call(ST.evaluate_ehrenfest_hessian, dm.copy(), cm.build(shells), pts.copy(), alpha=a, beta=b, **kw)
+    H = cm.call(ST.evaluate_ehrenfest_hessian, cm.rep(dm, rkind), cm.build(shells), cm.rep(pts, rkind), alpha=a, beta=b, **kw)
     cm.compare(H, href, TOL, "evaluate_ehrenfest_hessian" + tag + " vs Jacobian of the force", "hessian", viols, errs, scale=hsc + 1e-280, alpha=a, beta=b)
     evals += 1
-    Hs = cm.call(ST.evaluate_ehrenfest_hessian, dm.copy(), cm.build(shells), pts.copy(), alpha=a, beta=b, symmetric=True, **kw)
+    Hs = cm.call(ST.evaluate_ehrenfest_hessian, cm.rep(dm, rkind), cm.build(shells), cm.rep(pts, rkind), alpha=a, beta=b, symmetric=True, **kw)
     hs_sc = 0.5 * (hsc + np.swapaxes(hsc, 1, 2))
     cm.compare(Hs, 0.5 * (href + np.swapaxes(href, 1, 2)), TOL, "evaluate_ehrenfest_hessian(symmetric=True)" + tag, "hessian_sym", viols, errs, scale=hs_sc + 1e-280)
     evals += 1
